@@ -4,14 +4,20 @@
     The memory is, per model, the slice [Generations] of lazily loaded
     [modelGeneration]s (nil = not loaded / purged).  The process is modelled by
     four kinds of atomic actions
-        ARun i    runGeneration(i)                      (main goroutine)
-        ALinks i  the "PROCESS LINKS" loop of iteration i (main goroutine)
+        ARun i      runGeneration(i)                      (main goroutine)
+        ALinkOne i  one iteration of the "PROCESS LINKS" loop of iteration i that applies a link
+        ALinks i    the rest of the "PROCESS LINKS" loop of iteration i, up to its break
         AWrite g  writeGeneration(g)                    (writer goroutine g)
         APurge g  PurgeGeneration(g) for every model    (any waiting writer goroutine)
     executed in ANY order ([impl_exec] takes the schedule).  Which schedules the
     goroutine/channel protocol of main.go can produce is the subject of
     Protocol.v; [impl_sim] runs the canonical one.  Every Go panic / error exit
     is [None].
+
+    The map [models : map[string]*modelReference] is modelled by position in
+    [modelNames]; the two coincide when the names are pairwise distinct, which
+    [valid_graph] requires (with a repeated name the Go map would alias two
+    entries of [modelNames] to one modelReference).
 
     Assumption stated here (proved elsewhere, property C04): the vectorised
     [Model.Run(inputs, states, outputs)] of a generation equals running the
@@ -23,7 +29,7 @@ Import ListNotations.
 
 Set Implicit Arguments.
 
-Inductive action := ARun (i : nat) | ALinks (i : nat) | AWrite (g : nat) | APurge (g : nat).
+Inductive action := ARun (i : nat) | ALinkOne (i : nat) | ALinks (i : nat) | AWrite (g : nat) | APurge (g : nat).
 
 Section Impl.
   Variables name T Ser : Type.
@@ -143,6 +149,19 @@ Section Impl.
       | _ :: _, [] => None
       end.
 
+    (** The goroutines that runGeneration starts (one per model) finish in an
+        arbitrary order; each touches only its own modelGeneration.
+        [run_models_order i order] runs the models one after the other in the
+        given order (RunOrder.v: for every permutation [order] of the model
+        indices this equals [run_models i]). *)
+    Definition run_model_at (i : nat) (refs : list mref) (m : nat) : option (list mref) :=
+      md <- nth_error (g_models gr) m ;;
+      mr <- nth_error refs m ;;
+      mr' <- run_model i md mr ;;
+      upd_nth refs m (fun _ => Some mr').
+    Definition run_models_order (i : nat) (order : list nat) (refs : list mref) : option (list mref) :=
+      foldM (run_model_at i) order refs.
+
     Definition set_gens (refs : list mref) (m : nat) (gens : list (option gen_data)) : option (list mref) :=
       upd_nth refs m (fun mr => Some {| mr_gens := gens; mr_init := mr_init mr |}).
 
@@ -257,6 +276,15 @@ Section Impl.
       | ARun i =>
           refs' <- run_models i (g_models gr) (is_refs st) ;;
           Some {| is_refs := refs'; is_links := is_links st; is_file := is_file st |}
+      | ALinkOne i =>
+          (* one loop iteration that does not break; a stutter step when the loop would break here *)
+          match is_links st with
+          | [] => Some st
+          | l :: rest =>
+              if i <? l_src_gen l then Some st
+              else refs' <- apply_link (is_refs st) l ;;
+                   Some {| is_refs := refs'; is_links := rest; is_file := is_file st |}
+          end
       | ALinks i =>
           '(refs', rest) <- process_links i (is_refs st) (is_links st) ;;
           Some {| is_refs := refs'; is_links := rest; is_file := is_file st |}
